@@ -325,6 +325,8 @@ def _stat(record, root):
     # effective sample count per degree of freedom from the known velocity autocorrelation c1^2 per step
     # (harmonic case: use the same bound, it is the slower of the two decays for these parameters)
     g = (1 + c1sq * c1sq) / (1 - c1sq * c1sq)  # integrated autocorrelation of v^2 for an O-U process
+    if cfg["stub"]["pot"] != "zero":
+        g *= 4.0  # bound systems: energy exchange with the potential lengthens the correlation; be conservative
     ndof_tot = 3.0 * float(nat.sum())
     neff = n * ndof_tot / g
     sigma = math.sqrt(2.0 / neff)
